@@ -1,6 +1,20 @@
 #!/bin/bash
-# run the repository baseline suite (guard off) and print a summary; $1 = log file
-LOG=${1:-/tmp/suite.log}
-cd /repo && /venv/bin/python -m pytest -q -p no:cacheprovider --timeout=900 --continue-on-collection-errors -n ${2:-8} > $LOG 2>&1
-echo "exit $?" >> $LOG
-tail -3 $LOG
+# run the repository baseline suite (guard off) in parallel and compare with BASELINE.json stable_pass; $1 = repo dir (default /repo)
+R=${1:-/repo}
+OUT=${2:-/verif/.work/suite}
+mkdir -p $OUT
+cd $R && env -u NXP_SPSDK_VERIF PYTHONPATH=$R /venv/bin/python -m pytest -q -p no:cacheprovider --timeout=900 --continue-on-collection-errors -n ${N:-8} --junitxml=$OUT/junit.xml > $OUT/log 2>&1
+echo "exit $?" >> $OUT/log
+tail -2 $OUT/log
+/venv/bin/python - $OUT/junit.xml <<'P'
+import json, sys, xml.etree.ElementTree as ET
+sp = set(json.load(open('/root/.vp/BASELINE.json'))['stable_pass'])
+ok = set()
+for tc in ET.parse(sys.argv[1]).getroot().iter('testcase'):
+    if not any(c.tag in ('failure', 'error', 'skipped') for c in tc):
+        ok.add(f"{tc.get('classname')}::{tc.get('name')}")
+missing = sorted(sp - ok)
+print(f"stable_pass {len(sp)}; passing now {len(sp & ok)}; missing {len(missing)}")
+for m in missing[:40]:
+    print("  MISSING", m)
+P
